@@ -53,10 +53,10 @@ def klass(c):
 
 
 def budget_for(flags, rng):
-    if flags & F_MT:
-        return rng.choice([20000, 200000])
-    if flags & F_SLOW:
-        return rng.choice([3000, 20000])
+    if flags & F_MT:   # worker threads share the evaluation count (some spin on the condition)
+        return rng.choice([500, 3000, 6000])
+    if flags & F_SLOW:  # batch planners spend ~1000 evaluations sampling before they search
+        return rng.choice([3000, 12000])
     return rng.choice([0, 1, 5, 60, 400, 1500, 1500])
 
 
